@@ -166,7 +166,7 @@ def check_case(case: dict) -> Result:
                     true_min = min(sum(table[(g, c)] for g in range(R)) / R for c in cands)
                     if abs(mean - true_min) > tol:
                         res.fail(f"best-not-minimal :: n={n} size {s}: reported mean {mean!r}, minimum over all {len(cands)} sets is {true_min!r}")
-                    if prev_mean is not None and mean > prev_mean + tol:
+                    if prev_mean is not None and mean > prev_mean + tol and not specs[0].get("how", "").startswith("harness-arbitrary"):
                         res.fail(f"best-curve-increases :: n={n}: {prev_mean!r} -> {mean!r} at size {s}")
                     prev_mean = mean
                 res.label("best-states")
@@ -179,16 +179,23 @@ def check_case(case: dict) -> Result:
 def cases(draw, n_max: int):
     from .. import libgames
     n = draw(st.integers(3, n_max))
-    src = draw(st.sampled_from(["sa", "sam", "lib"]))
+    want_best = n <= 4 and draw(st.integers(0, 2)) == 0
+    # the optimum search is where negative gaps (games outside the class, rounding residues of float games) matter most
+    src = draw(st.sampled_from(["arbitrary", "arbitrary", "lib", "sa"] if want_best else ["sa", "sam", "lib", "arbitrary"]))
     R = draw(st.integers(1, 3))
-    if src == "sa":
+    if src == "arbitrary":
+        # "for any game": enumeration, per-set values and the per-size minimum do not depend on the class (gaps may be negative)
+        from ..games import arbitrary_games
+        games = [dict(kind="table", n=n, v=draw(arbitrary_games(n, n, classes=("int", "dyadic")))["v"], how="harness-arbitrary") for _ in range(R)]
+        comp = draw(st.sampled_from(["superadditive", "superadditive_cached"]))
+    elif src == "sa":
         games = [dict(kind="table", n=n, v=draw(superadditive_games(n, n))["v"], how="harness-sa") for _ in range(R)]
         comp = draw(st.sampled_from(["superadditive", "superadditive_cached"]))
     elif src == "sam":
         games = [dict(kind="table", n=n, v=draw(sam_games(n, n))["v"], how="harness-sam") for _ in range(R)]
         comp = draw(st.sampled_from(["sam_apx_1", "superadditive_cached"]))
     else:
-        name = draw(st.sampled_from(["noisy_factory", "factory", "xos", "graph_random", "graph_beta_2_3", "factory_cheerleader_next", "k_budget_generator"]))
+        name = draw(st.sampled_from(["noisy_factory", "noisy_factory", "noisy_factory_square", "factory", "xos", "graph_random", "graph_beta_2_3", "factory_cheerleader_next", "k_budget_generator"]))
         seed = draw(st.integers(0, 2**31))
         games = [libgames.lib_spec(name, n, seed + j) for j in range(R)]
         comp = draw(st.sampled_from(["superadditive", "superadditive_cached"]))
@@ -206,9 +213,13 @@ def cases(draw, n_max: int):
     nplayers = len(rest)
     meta = draw(st.lists(st.integers(0, (1 << nplayers) - 1), max_size=3)) if n <= 4 else []
     best = None
-    if n <= 4 and draw(st.integers(0, 2)) == 0:
-        best = {"k": draw(st.integers(1, 2 if n == 4 else 3)), "p": draw(st.sampled_from([1, 2, 3]))}
-    return {"n": n, "games": games, "computer": comp, "gap": draw(st.sampled_from(["exploitability", "l1_norm", "l2_norm", "linf_norm"])),
+    if want_best:
+        # sizes up to "everything revealed" (n=3) / deep into the lattice (n=4, where large sets already determine the game)
+        best = {"k": draw(st.sampled_from([1, 2, 3] if n == 3 else [1, 2, 2, 3, 8, 10])), "p": draw(st.sampled_from([1, 2, 3]))}
+        if best["k"] >= 8:
+            games = games[:1] if src != "lib" else games[:2]
+    gaps = ["exploitability", "exploitability", "exploitability", "l1_norm"] if want_best else ["exploitability", "l1_norm", "l2_norm", "linf_norm"]
+    return {"n": n, "games": games, "computer": comp, "gap": draw(st.sampled_from(gaps)),
             "k": k, "extra": sorted(extra), "procs": procs, "meta": meta, "best": best}
 
 
@@ -220,7 +231,7 @@ def _sample(case):
 
 def plan(tier: str) -> list[dict]:
     if tier == "quick":
-        return [{"n_max": 4, "examples": 10, "cost": 5} for _ in range(4)]
+        return [{"n_max": 4, "examples": 24, "cost": 5} for _ in range(4)]
     return [{"n_max": 4, "examples": 60, "cost": 10} for _ in range(13)] + [{"n_max": 5, "examples": 20, "cost": 12} for _ in range(3)]
 
 
